@@ -633,7 +633,7 @@ pub fn install_hooks() {
     // the oracles, not printed
     let default = std::panic::take_hook();
     std::panic::set_hook(Box::new(move |info| {
-      if h_active() {
+      if h_active() && std::env::var("VERIF_DEBUG").is_err() {
         return;
       }
       default(info)
